@@ -24,6 +24,10 @@ references everywhere) and corpus schemas (tests/test_cases/examples) are re-arr
     constraint forms in three declaration orders; a PURITY MONITOR that fingerprints every global component when its
     constructor returns, at the end of the build and after validation (a constructor must not change a component
     that is already built),
+  * XSD 1.1 components whose XPath tests are TEXTUALLY IDENTICAL while their operands are typed differently (xs:assert
+    over attributes and children, assertion facets over $value, type alternatives; int / decimal / double / string /
+    date), with an exhaustive family of all ordered pairs of typings; the purity monitor also checks the XPath
+    machinery: every parser / token object serves one component and a schema-bound parser is bound to its own,
   * components that are resolved through a maps-level REGISTRY of XsdGlobals beside the six staged maps
     (harness/lib_c09reg.py): xs:key/xs:unique referred by an xs:keyref (or an XSD 1.1 `ref`) declared on another
     element (key on the same element / a nested local element / a local element of a named type / of a global
@@ -65,7 +69,7 @@ from typing import Any, Optional
 
 from harness.core import Ctx, Driver, REPO, VERIF
 from harness.lib_schemagen import Schema, HEAD, TAIL, NSA, NSB, TNS
-from harness.lib_c09reg import Features, Epochs, registry_view, fingerprint, diff_fp
+from harness.lib_c09reg import Features, Epochs, registry_view, fingerprint, diff_fp, xpath_bindings
 
 FINDINGS_FILE = VERIF / 'notes' / 'findings' / 'C09.json'
 PROPS = 'XsVerif.Props.C09'
@@ -86,7 +90,10 @@ RULE = ('a case = (schema, arrangement or step of a storage history, probe set) 
         'their wildcards from shared components, wildcard-pair:* = exhaustive family of ordered pairs of forms, '
         'purity-monitor:components-fingerprinted, repeated-file-names:* = layouts of several directories with repeated '
         'basenames (spelling mode, order of the main includes), directory-family:<composition>/<spelling>, '
-        'storage:<operation>/before-any-validation = copies taken from a schema object that has not validated yet')
+        'storage:<operation>/before-any-validation = copies taken from a schema object that has not validated yet, '
+        'registry:identical-xpath-tests + xpath-operand-typing(attributes|children|$value):<type> = XSD 1.1 components '
+        'with textually identical XPath tests over differently typed operands, assertion-pair = exhaustive family of '
+        'ordered pairs of typings')
 TRUSTED = ['component constructors are modelled by the free interpretation (a component = tree of what its '
            'constructor looked up); their purity is monitored, not proved: (1) the deps observed in one arrangement '
            'must predict the trace of every other arrangement, (2) every global component is fingerprinted (declared '
@@ -223,6 +230,9 @@ class Recorder:
                                        'phase': 'between the return of its constructor and the end of the build',
                                        'change': diff_fp(fp, now)})
             self.fp2[name] = (comp, fingerprint(comp, True))
+        for f in xpath_bindings([c for c, _ in self.fp1.values()]):
+            self.mutations.append({'component': '; '.join(f['components'])[:600], 'class': 'XPath machinery',
+                                   'phase': 'at the end of the build', 'change': f['what']})
 
     def after_validation(self) -> list:
         out = []
@@ -519,8 +529,11 @@ def purity(ctx: Ctx, case: dict, extra: dict) -> None:
     rec.mutations = []
     ctx.count('purity-monitor:components-fingerprinted', len(rec.fp2))
     for m in muts[:3]:
-        ctx.failure('constructors are not pure: a component that was already built was changed in place (' + m['component'] + ')',
-                    dict(case, purity=True, **extra), m)
+        if m.get('class') == 'XPath machinery':
+            what = 'XPath machinery is not owned by one component: ' + m['change'][:90] + ' (' + m['component'][:200] + ')'
+        else:
+            what = 'constructors are not pure: a component that was already built was changed in place (' + m['component'] + ')'
+        ctx.failure(what, dict(case, purity=True, **extra), m)
 
 
 def segs(path: str) -> list[str]:
@@ -1246,9 +1259,7 @@ def known_match(case: dict, detail: dict) -> Optional[str]:
         extra = [e for e in a if e not in b] + [e for e in b if e not in a]
         if extra and all(len(e) == 3 and re.search(r"'[abc]' attribute not allowed for element", e[2]) for e in extra):
             return 'C09-F3'
-    if case.get('storage') == 'cold:copy.copy' and len(b) == 1 and b[0][:2] == ['raised', 'XMLSchemaNotBuiltError']:
-        # C09-F4: the shallow copy of a built schema that has not validated anything yet is "not built"
-        return 'C09-F4'
+    # (C09-F4 is fixed: the shallow copy of a built schema that has not validated yet works; no rule any more)
     return None
 
 
@@ -1450,6 +1461,61 @@ def directory_family(ctx: Ctx, tmp: str) -> None:
                                 'the schema: ' + dd['what'], dict(case, **extra), dd)
 
 
+# =============================================================================================
+#  exhaustive small scope (XSD 1.1): every ordered pair of operand typings under textually identical XPath tests
+#  (xs:assert on attributes and on children, assertion facet on $value), three declaration orders
+# =============================================================================================
+def assertion_pairs(ctx: Ctx, tmp: str) -> None:
+    from harness.lib_c09reg import XPATH_TYPINGS, XPATH_TEST_A, XPATH_TEST_B, XPATH_TEST_V
+    head = HEAD.replace(' xmlns:a="urn:a" xmlns:b="urn:b"', '')
+    ns = ' xmlns:t="urn:t"'
+    pairs = [('9', '10'), ('10', '9'), ('9.5', '10.0'), ('abc', 'abd'), ('2024-01-09', '2024-01-10')]
+    probes = [f'<t:{e}{ns} min="{a}" max="{b}"><t:lo>{a}</t:lo><t:hi>{b}</t:hi></t:{e}>' for e in ('ea', 'eb') for a, b in pairs]
+    probes += [f'<t:{e}{ns}>{v}</t:{e}>' for e in ('sa', 'sb') for v in ('10', '10.0', '010')]
+    simple = {'xs:int': 'xs:int', 'xs:string': 'xs:string', 'xs:decimal': 'xs:decimal', 'xs:double': 'xs:double', 'xs:date': 'xs:string'}
+    for n, (t1, t2) in enumerate((a, b) for a in XPATH_TYPINGS for b in XPATH_TYPINGS if a != b):
+        def ct(name: str, ty: str) -> str:
+            return (f'<xs:complexType name="{name}"><xs:sequence><xs:element name="lo" type="{ty}" minOccurs="0"/>'
+                    f'<xs:element name="hi" type="{ty}" minOccurs="0"/></xs:sequence><xs:attribute name="min" type="{ty}"/>'
+                    f'<xs:attribute name="max" type="{ty}"/><xs:assert test="{XPATH_TEST_A}"/><xs:assert test="{XPATH_TEST_B}"/>'
+                    f'</xs:complexType>')
+
+        def st(name: str, ty: str) -> str:
+            return (f'<xs:simpleType name="{name}"><xs:restriction base="{simple[ty]}"><xs:assertion test="{XPATH_TEST_V}"/>'
+                    f'</xs:restriction></xs:simpleType>')
+        d = {'A': ct('A', t1), 'B': ct('B', t2), 'SA': st('SA', t1), 'SB': st('SB', t2),
+             'el': '<xs:element name="ea" type="t:A"/><xs:element name="eb" type="t:B"/><xs:element name="sa" type="t:SA"/>'
+                   '<xs:element name="sb" type="t:SB"/>'}
+        base = None
+        for oi, order in enumerate((['A', 'B', 'SA', 'SB', 'el'], ['el', 'SB', 'SA', 'B', 'A'], ['B', 'el', 'SA', 'A', 'SB'])):
+            root = os.path.join(tmp, f'ap{n}_{oi}')
+            os.makedirs(root)
+            text = head + '\n'.join(d[x] for x in order) + '\n' + TAIL
+            with open(os.path.join(root, 'main.xsd'), 'w') as f:
+                f.write(text)
+            case = {'assertion-pair': [t1, t2], 'order': order, 'class': 'XMLSchema11'}
+            files = {'main.xsd': text}
+            try:
+                schema, view = build_real(os.path.join(root, 'main.xsd'), cls='XMLSchema11')
+            except Exception as e:   # noqa
+                ctx.failure('an order of the declarations is rejected', dict(case, base_files=base[1] if base else files, files=files,
+                                                                            probes=probes, open='abs'),
+                            {'error': type(e).__name__, 'message': norm_text(str(e))[:300]})
+                continue
+            obs = observe(schema, probes)
+            purity(ctx, case, {'base_files': base[1] if base else files, 'files': files, 'probes': probes, 'open': 'abs'})
+            ctx.case(case, True, tag='assertion-pair')
+            if base is None:
+                base = (obs, files)
+                ctx.count('assertion-pair-probes:valid', sum(1 for p in obs['probes'] if not p['errors']))
+                ctx.count('assertion-pair-probes:invalid', sum(1 for p in obs['probes'] if p['errors']))
+            else:
+                dd = diff_obs(base[0], obs)
+                if dd is not None:
+                    ctx.failure('declaration order changes the outcome of textually identical XPath tests: ' + dd['what'],
+                                dict(case, base_files=base[1], files=files, probes=probes, open='abs'), dd)
+
+
 def header_family(ctx: Ctx, tmp: str, batch: Optional[Batch] = None) -> None:
     from pathlib import Path
     for k, (name, xsd, docs) in enumerate(HEADER_FAMILY):
@@ -1576,9 +1642,10 @@ def run(ctx: Ctx, driver_ok: bool) -> None:
         registry_family(ctx, tmp, batch)
         wildcard_pairs(ctx, tmp)
         directory_family(ctx, tmp)
+        assertion_pairs(ctx, tmp)
         corpus(ctx, tmp, batch)
         flush(ctx, batch, drv)
-        n = ctx.pick(60, 580)
+        n = ctx.pick(60, 540)
         for i in range(n):
             size = ctx.rng.choice([8, 12, 16, 24, 32])
             one_schema(ctx, drv, batch, i, tmp, size, n_perm=ctx.pick(2, 3), n_split=ctx.pick(3, 5),
